@@ -9,7 +9,7 @@ from fractions import Fraction
 
 from .. import core, check, cliflow, epcheck, textflow as tf
 
-THEOREMS = ["C17_xml_well_formed", "C17_escape_any_text", "C17_escape_keeps_clean_text", "C17_figures_at_precision",
+THEOREMS = ["C17_xml_well_formed", "C17_escape_any_text", "C17_escape_keeps_clean_text", "C17_escape_is_reversible", "C17_figures_at_precision",
             "C17_json_rounding", "C17_tables_order_independent"]
 
 EPS = Fraction(1, 10 ** 6)
